@@ -173,11 +173,12 @@ func c16IBECase(r *mon.R, m c16ibeMode, l, rep, hs int) {
 
 	var ct *ibe.Ciphertext
 	var err error
-	if !c.call(encName, "honest", func() {
-		ct, err = encrypt(s, c16Dec(ug, c16Enc(k.master)), append([]byte(nil), k.id...), append([]byte(nil), msg...))
-	}) {
+	masterIn, idIn, msgIn := c16Dec(ug, c16Enc(k.master)), append([]byte(nil), k.id...), append([]byte(nil), msg...)
+	encSnap := c16Snap().add("master-public-key", c16P(masterIn)).add("identity", c16S(&idIn)).add("message", c16S(&msgIn))
+	if !c.call(encName, "honest", func() { ct, err = encrypt(s, masterIn, idIn, msgIn) }) {
 		return
 	}
+	c.intact(encSnap, encName, "honest", err != nil)
 	if l > hs {
 		c.eval("encrypt/beyond-hash-size", "enc", true)
 		if err != nil {
@@ -203,7 +204,11 @@ func c16IBECase(r *mon.R, m c16ibeMode, l, rep, hs int) {
 
 	dec := func(class string, key kyber.Point, U kyber.Point, v, w []byte, kv ...any) (pt []byte, e error, ok bool) {
 		cc := &ibe.Ciphertext{U: U, V: append([]byte(nil), v...), W: append([]byte(nil), w...)}
+		sn := c16Snap().add("private-key", c16P(key)).add("ciphertext.U", c16P(cc.U)).add("ciphertext.V", c16S(&cc.V)).add("ciphertext.W", c16S(&cc.W))
 		ok = c.call(decName, class, func() { pt, e = decrypt(s, key, cc) }, kv...)
+		if ok {
+			c.intact(sn, decName, class, e != nil, kv...)
+		}
 		return
 	}
 
@@ -221,6 +226,17 @@ func c16IBECase(r *mon.R, m c16ibeMode, l, rep, hs int) {
 	}
 	if rep == 0 {
 		r.SampleClass("ibe:"+m.mode+":"+m.ps.Name+":"+c16IBELenClass(l, hs), map[string]any{"scheme": c.scheme, "suite": m.ps.Name, "len": l, "U_len": len(Ub), "V_len": len(V), "W_len": len(W), "roundtrip": err == nil && bytes.Equal(pt, msg)})
+	}
+
+	// (1c) the same Ciphertext object decrypted again, and once more after a failed wrong-key attempt
+	{
+		obj := &ibe.Ciphertext{U: c16Dec(ug, Ub), V: append([]byte(nil), V...), W: append([]byte(nil), W...)}
+		key := c16Dec(ig, k.priv)
+		wrong := ig.Point().Mul(k.ms, ig.Point().(kyber.HashablePoint).Hash([]byte("C16 repeat: some other identity")))
+		c.repeat(decName, msg, mclass == "random",
+			func() ([]byte, error) { return decrypt(s, key, obj) },
+			func() ([]byte, error) { return decrypt(s, wrong, obj) },
+			func() []byte { return append(append(c16Enc(obj.U), obj.V...), obj.W...) })
 	}
 
 	// (2) wrong keys / identities
@@ -388,11 +404,12 @@ func c16IBECPACase(r *mon.R, c *c16c, m c16ibeMode, k c16ibeKeys, rng *gen.Rng, 
 	r.Op("ibe.EncryptCPAonG1", "ibe.DecryptCPAonG1")
 	var ct *ibe.CiphertextCPA
 	var err error
-	if !c.call("EncryptCPAonG1", "honest", func() {
-		ct, err = ibe.EncryptCPAonG1(s, c16Dec(ug, c16Enc(k.base)), c16Dec(ug, c16Enc(k.master)), append([]byte(nil), k.id...), append([]byte(nil), msg...))
-	}) {
+	baseIn, masterIn, idIn, msgIn := c16Dec(ug, c16Enc(k.base)), c16Dec(ug, c16Enc(k.master)), append([]byte(nil), k.id...), append([]byte(nil), msg...)
+	encSnap := c16Snap().add("base-point", c16P(baseIn)).add("master-public-key", c16P(masterIn)).add("identity", c16S(&idIn)).add("message", c16S(&msgIn))
+	if !c.call("EncryptCPAonG1", "honest", func() { ct, err = ibe.EncryptCPAonG1(s, baseIn, masterIn, idIn, msgIn) }) {
 		return
 	}
+	c.intact(encSnap, "EncryptCPAonG1", "honest", err != nil)
 	if l > hs {
 		c.eval("encrypt/beyond-hash-size", "enc", true)
 		if err != nil {
@@ -416,7 +433,11 @@ func c16IBECPACase(r *mon.R, c *c16c, m c16ibeMode, k c16ibeKeys, rng *gen.Rng, 
 	priv := c16Dec(ig, k.priv)
 	dec := func(class string, key kyber.Point, RP kyber.Point, cc []byte, kv ...any) (pt []byte, e error, ok bool) {
 		x := &ibe.CiphertextCPA{RP: RP, C: append([]byte(nil), cc...)}
+		sn := c16Snap().add("private-key", c16P(key)).add("ciphertext.RP", c16P(x.RP)).add("ciphertext.C", c16S(&x.C))
 		ok = c.call("DecryptCPAonG1", class, func() { pt, e = ibe.DecryptCPAonG1(s, key, x) }, kv...)
+		if ok {
+			c.intact(sn, "DecryptCPAonG1", class, e != nil, kv...)
+		}
 		return
 	}
 	pt, err, ok := dec("roundtrip", priv, c16Dec(ug, RPb), C)
@@ -432,6 +453,16 @@ func c16IBECPACase(r *mon.R, c *c16c, m c16ibeMode, k c16ibeKeys, rng *gen.Rng, 
 	}
 	if rep == 0 {
 		r.SampleClass("ibe:"+m.mode+":"+m.ps.Name+":"+c16IBELenClass(l, hs), map[string]any{"scheme": c.scheme, "suite": m.ps.Name, "len": l, "RP_len": len(RPb), "C_len": len(C), "roundtrip": err == nil && bytes.Equal(pt, msg)})
+	}
+	// the same CiphertextCPA object decrypted again, and once more after an attempt with another identity's key
+	{
+		obj := &ibe.CiphertextCPA{RP: c16Dec(ug, RPb), C: append([]byte(nil), C...)}
+		key := c16Dec(ig, k.priv)
+		wrong := ig.Point().Mul(k.ms, ig.Point().(kyber.HashablePoint).Hash([]byte("C16 repeat: some other identity")))
+		c.repeat("DecryptCPAonG1", msg, mclass == "random",
+			func() ([]byte, error) { return ibe.DecryptCPAonG1(s, key, obj) },
+			func() ([]byte, error) { return ibe.DecryptCPAonG1(s, wrong, obj) },
+			func() []byte { return append(c16Enc(obj.RP), obj.C...) })
 	}
 	// clear-text scan over enc(RP)||C
 	if mclass == "random" {
